@@ -26,6 +26,7 @@ META = {
 META["claim"] += " " + "Also: a third of the histories without the thread-safety locks (enable_multithread=False); reset as a transport fault for the release rules; close(timeout) against peers that stream for ever / answer late / end the stream, with socket timeouts None/0.3/1/5; close() racing with a reader thread that receives the server's close frame (DFS + random schedules at sync/IO granularity); close(timeout) on a real TLS connection against a peer that never reacts."
 META["claim"] += " " + "Round 4: the transport fails (timeout / reset / EIO) after 1-7 bytes of the client's own close frame under send_close(), close() and the automatic reply; a later close() starts no second close frame and releases the transport."
 META["claim"] += " " + 'Round 5: close(timeout=0 / 0.0); two objects in one process - a thread in a receive call on a silent connection while close() runs on the other.'
+META["claim"] += " " + 'Rounds 6-7: leftover bytes after close, real TCP with queued data; close() after send_close(), after an answered server close and after a rejected frame (timing, release, and five later calls raising the connection-closed exception).'
 
 CLIENT = ["send", "recv", "ping", "close", "close_code", "close_bad", "send_close", "shutdown"]
 SERVER = ["s_text", "s_ping", "s_close_body", "s_close", "s_eof", "s_reset"]
